@@ -475,6 +475,9 @@ pub fn run(ctx: &Ctx) {
     drive_enum(ctx, &SUBS[0], sweep::cases().len() as u64);
     drive_enum(ctx, &SUBS[1], ctx.n(60, 3000));
     drive_random(ctx, &SUBS[2], ctx.n(40_000, 2_000_000), 1200);
+    if !ctx.quick() && !ctx.failed() {
+        crate::fuzzing::drive_fuzz(ctx, "bytes", 2_000_000);
+    }
 }
 
 pub fn finish(ctx: &Ctx) -> i32 {
